@@ -370,8 +370,11 @@ class TorchDistributedCommunicator:
         return future.then(callback_)
 
     def group_ranks(self, group: dist.ProcessGroup | None) -> frozenset[int]:
-        """Get frozenset of ranks in group."""
-        return frozenset(range(get_world_size(group)))
+        """Get frozenset of (global) ranks in group."""
+        if group is None or not dist.is_initialized():
+            return frozenset(range(get_world_size(group)))
+        # Distinct groups of equal size must not share a bucket
+        return frozenset(dist.get_process_group_ranks(group))
 
     def flush_allreduce_buckets(self) -> None:
         """Initiate the communication for the current allreduce bucket."""
